@@ -166,16 +166,31 @@ func (req *UploadRequest) Decode(r io.Reader) error {
 			return nil
 		}
 
-		// After deepen <n>, only flush-pkt is valid
+		// After deepen <n>, only a filter line or flush-pkt is valid
 		if req.Depth.Deepen > 0 {
 			if bytes.HasPrefix(line, deepenSince) || bytes.HasPrefix(line, deepenReference) {
 				return ErrDeepenMutuallyExclusive
 			}
-			return decodeError("unexpected payload while expecting a flush-pkt: %q", line)
+			if !bytes.HasPrefix(line, filterPrefix) {
+				return decodeError("unexpected payload while expecting a flush-pkt: %q", line)
+			}
 		}
 		// After deepen-since/deepen-not, only deepen-since/deepen-not or flush is valid
 		if deepenRevList && bytes.HasPrefix(line, deepen) && !bytes.HasPrefix(line, deepenSince) && !bytes.HasPrefix(line, deepenReference) {
 			return ErrDeepenMutuallyExclusive
+		}
+	}
+
+	// Optional filter-request: "filter <filter-spec>"
+	if bytes.HasPrefix(line, filterPrefix) {
+		req.Filter = Filter(bytes.TrimPrefix(line, filterPrefix))
+
+		ok, err := nextLine()
+		if err != nil {
+			return err
+		}
+		if !ok || len(line) == 0 {
+			return nil
 		}
 	}
 
